@@ -25,3 +25,7 @@ Definition rank (p n : Z) : Z := floor_int (rank_shifted p n).
 
 (* the same number in exact arithmetic, for reference: floor(|p| * n / 100 + 1/2) *)
 Definition rank_exact (p n : Z) : Z := (2 * Z.abs p * n + 100) / 200.
+
+(* the same for a threshold that is ANY float64 (the configuration accepts non-integers, e.g. 99.9) *)
+Definition rank_float (pct : float) (n : Z) : Z :=
+  floor_int (abs pct / f64_of_int 100 * f64_of_int n + half)%float.
